@@ -98,6 +98,7 @@ type Event struct {
 	Behave   string
 	NoStream bool
 	Avail    uint64 // proxies: head of the server's store when it answered
+	TailH    uint64 // proxies: tail of the server's store when it answered (ProxyHooks.Tail)
 }
 
 // Watchdog: a session whose only usable peers keep answering NOT_FOUND re-sends at once, for ever,
@@ -413,6 +414,7 @@ type ProxyHooks struct {
 	Before func(attempt int)
 	Fault  func(attempt int, n int) (keep int, tail Tail, name string)
 	Avail  func() uint64
+	Tail   func() uint64 // optional: the tail of the server's store (pruned servers)
 }
 
 // Proxy makes peer i a recording proxy in front of a real ExchangeServer running on its own
@@ -439,6 +441,9 @@ func (w *World) Proxy(i int, backend host.Host, hooks ProxyHooks) {
 		ev := Event{Peer: i, Now: time.Now().UnixNano(), Origin: req.GetOrigin(), Amount: req.Amount, ByHash: byHash, Behave: "server"}
 		if hooks.Avail != nil {
 			ev.Avail = hooks.Avail()
+		}
+		if hooks.Tail != nil {
+			ev.TailH = hooks.Tail()
 		}
 		ctx, cancel := context.WithTimeout(context.Background(), time.Hour)
 		defer cancel()
